@@ -118,6 +118,8 @@ func (s *State) get(arr string) string {
 		}
 		name := fmt.Sprintf("%s@m%d", arr, s.epoch)
 		if _, done := fc.q.declared[name]; !done {
+			// a declared constant with one conditional equality per incoming edge: quantifier patterns over the merged
+			// array stay legal (a definition by cases would put an ite into them)
 			fc.q.declare(name, sortv)
 			for i, p := range s.parents {
 				fc.q.assert(implies(p.edge, eq(name, terms[i])))
@@ -184,7 +186,11 @@ func (s *State) havocAll() {
 }
 
 // havocArrs: the listed arrays get new versions; local objects keep their contents.
-func (s *State) havocArrs(arrs []string) {
+func (s *State) havocArrs(arrs []string) { s.havocArrsKeeping(arrs, nil) }
+
+// havocArrsKeeping: like havocArrs; the local objects whose reference is in forget do not keep their contents (a loop
+// head: locals written by the loop body).
+func (s *State) havocArrsKeeping(arrs []string, forget map[string]bool) {
 	fc := s.fc
 	sort.Strings(arrs)
 	for _, a := range arrs {
@@ -197,6 +203,9 @@ func (s *State) havocArrs(arrs []string) {
 		fc.written[a] = true
 		s.bounds[a] = "" // resolved to the allocation counter after the call (see fixBounds)
 		for _, lo := range fc.localObjs {
+			if forget[lo.ref] {
+				continue
+			}
 			var ls []Leaf
 			fc.g.ti.leaves(lo.typ, 0, "", &ls)
 			for _, l := range ls {
